@@ -118,6 +118,13 @@ func lifecycle(r *Rng, p *Plan, until time.Duration, allowCrash bool, stopKinds 
 					a.Kind = AStop
 				}
 				p.Actions = append(p.Actions, a)
+				if a.Kind != ACrash && r.Bool(0.12) { // a second, concurrent stop call at the same instant
+					b := a
+					if r.Bool(0.5) {
+						b.Kind, b.DeleteKey = AStopCtx, true
+					}
+					p.Actions = append(p.Actions, b)
+				}
 				running = false
 			} else {
 				k := AStart
@@ -146,7 +153,9 @@ func init() {
 		p.Until = r.Dur(3*p.TTL, 12*p.TTL) + 2*sec
 		lifecycle(r, p, p.Until, false, []string{AStop, AStopCtx, AStopCtx})
 		p.Tail = p.TTL + 2*sec
-		p.Sched = SchedCfg{YieldProb: Pick(r, []float64{0, 0.05, 0.3}), StallMax: 0}
+		// stalls of at most H/50: far inside the slack a correct implementation has (TTL >= 3H,
+		// operations below H/2), long enough to let another goroutine's operation land in between
+		p.Sched = SchedCfg{YieldProb: Pick(r, []float64{0, 0.05, 0.3}), StallMax: Pick(r, []time.Duration{0, 0, p.H / 50})}
 		return p
 	}
 
@@ -590,6 +599,16 @@ func init() {
 			p.Insts[i].V = Pick(r, []time.Duration{0, p.H, 3 * p.H})
 			p.Actions = append(p.Actions, Action{At: time.Duration(i) * r.Dur(1*ms, 30*ms), Kind: AStart, Inst: i})
 		}
+		// priorities: candidates that may not preempt the leader (equal or lower priority, or
+		// takeover disabled) must still be there when the record becomes vacant
+		if r.Bool(0.4) {
+			p.Insts[0].Prio = 3
+			p.Insts[0].Takeover = r.Bool(0.5)
+			for i := 1; i < n; i++ {
+				p.Insts[i].Prio = Pick(r, []int{1, 2, 3, 3})
+				p.Insts[i].Takeover = r.Bool(0.7)
+			}
+		}
 		p.Store = healthyStore(r, Pick(r, []time.Duration{p.H / 2, 100 * ms, 20 * ms}))
 		// instance 0 starts first and normally leads; remove it at tv
 		tv := r.Dur(p.H, 10*p.H) + 700*ms
@@ -840,11 +859,18 @@ func enumerateStopPoint(p *Plan, seed uint64) {
 	r := NewRng(seed, "c09stop-extra")
 	if r.Bool(0.4) { // repeated stop, or stop then start
 		p.Actions = append(p.Actions, Action{OpN: opn, Phase: phases[ph], Delay: delays[ph] + r.Dur(0, 8*sec), Inst: 0, Kind: Pick(r, []string{AStop, AStopCtx, AStart})})
+	} else if r.Bool(0.4) { // two stop calls at the very same instant (two shutdown paths of one program)
+		w := Pick(r, variants)
+		if r.Bool(0.5) {
+			w = v // the same variant twice
+		}
+		w.Inst, w.OpN, w.Phase, w.Delay = 0, opn, phases[ph], delays[ph]
+		p.Actions = append(p.Actions, w)
 	}
 	p.Note = fmt.Sprintf("stop point: op %d phase %s(+%d) variant %d", opn, phases[ph], delays[ph], k%uint64(len(variants)))
 	p.Until = 20*p.H + 3*p.TTL + 8*sec
 	p.Tail = 0
-	p.Sched = SchedCfg{YieldProb: Pick(r, []float64{0, 0.2}), StallMax: 0}
+	p.Sched = SchedCfg{YieldProb: Pick(r, []float64{0, 0.2, 0.5}), StallMax: 0}
 }
 
 func init() {
@@ -868,6 +894,43 @@ func init() {
 		}
 		p.Actions = acts
 		p.Judge = []string{"C02", "C07", "C08", "C18", "C19", "C09"}
+		return p
+	}
+}
+
+func init() {
+	// C07 "rounds": fault-free, but dense in vacancies and in overlapping acquisition rounds of
+	// one instance: instance 0 cycles start -> lead -> StopWithContext{DeleteKey} every few
+	// hundred ms, the others see every watch event twice (late/duplicated notifications are in
+	// C07's statement) on top of their periodic checks, so several rounds per instance are alive
+	// while records come and go; small stalls at yield sites.
+	families["c07rounds"] = func(r *Rng) *Plan {
+		p := &Plan{Judge: []string{"C07", "C02", "C08", "C19", "C18", "C05", "C17"}}
+		p.H = Pick(r, []time.Duration{200 * ms, 500 * ms, 1 * sec})
+		p.TTL = Pick(r, []time.Duration{3 * p.H, 5 * p.H})
+		n := 2 + r.Intn(2)
+		p.Insts = mkInsts(r, n, 1)
+		for i := range p.Insts {
+			p.Insts[i].V = Pick(r, []time.Duration{0, p.H, 2 * p.H})
+		}
+		lat := Pick(r, []time.Duration{p.H / 2, p.H / 4, 40 * ms})
+		p.Store = healthyStore(r, lat)
+		p.Store.WatchDelay = [2]Dur{0, Pick(r, []time.Duration{1 * ms, 30 * ms, 300 * ms})}
+		for i := 1; i < n; i++ {
+			p.Actions = append(p.Actions, Action{At: r.Dur(0, 50*ms), Kind: AStart, Inst: i})
+		}
+		t := r.Dur(0, 100*ms)
+		cycles := 4 + r.Intn(10)
+		for k := 0; k < cycles; k++ {
+			p.Actions = append(p.Actions, Action{At: t, Kind: AStart, Inst: 0})
+			t += r.Dur(lat, lat+600*ms)
+			p.Actions = append(p.Actions, Action{At: t, Kind: AStopCtx, Inst: 0, DeleteKey: true, WaitForDemote: r.Bool(0.3)})
+			t += r.Dur(lat, lat+500*ms)
+		}
+		p.Faults = append(p.Faults, Fault{Kind: FWatchDup, Inst: -1, From: 0, To: t + 10*sec})
+		p.Until = t + 2*p.TTL + 2*sec
+		p.Tail = 0
+		p.Sched = SchedCfg{YieldProb: Pick(r, []float64{0.1, 0.3, 0.6}), StallMax: Pick(r, []time.Duration{0, p.H / 50, p.H / 50})}
 		return p
 	}
 }
